@@ -221,6 +221,9 @@ func buildAcc(s accSpec) *vmcommon.OutputAccount {
 	if s.bal == 1 {
 		o.Balance = big.NewInt(5)
 	}
+	if s.bal == 2 {
+		o.Balance = big.NewInt(1000)
+	}
 	switch s.delta {
 	case 1:
 		o.BalanceDelta = big.NewInt(-3)
@@ -509,7 +512,7 @@ func C20(tier Tier) int {
 	}
 	n := len(specs)
 	// the accounts merged last: two without code, one with each code / code-metadata value
-	third := []accSpec{{1, 2, 1, 3, 3, 0, 3, 1}, {0, 0, 0, 1, 2, 0, 1, 0}, {1, 0, 0, 2, 2, 2, 3, 0}, {0, 1, 1, 0, 0, 1, 0, 0}}
+	third := []accSpec{{1, 2, 1, 3, 3, 0, 3, 1}, {0, 0, 0, 1, 2, 0, 1, 0}, {1, 0, 2, 2, 2, 2, 3, 0}, {0, 1, 1, 0, 0, 1, 0, 0}}
 	Parallel(n, func(wk, i int) {
 		e := merge[wk]
 		for j := 0; j < n; j++ {
